@@ -101,13 +101,19 @@ def execute(check, idx, seed, tier, tape=None, cap_s=600):
 
 
 _CHECK = None
+_HISTORY = []  # run indices this worker process has executed so far (hidden state that survives between runs is a C08 matter)
 
 
 def _worker_task(args):
     idxs, seed, tier, tape = args
     results = []
     for idx in idxs:
+        hist = list(_HISTORY)
         r = execute(_CHECK, idx, seed, tier, tape)
+        if tape is None:
+            _HISTORY.append(idx)
+            if r["violations"]:
+                r["process_history"] = hist
         if tape is None and not r["violations"] and not r["error"]:
             r.pop("tape", None)  # keep IPC small; tapes are re-derivable from (seed, idx)
             r.pop("oplog", None)
@@ -236,6 +242,7 @@ def write_replay(check, res, target, note=""):
                 "oplog": res.get("oplog"),
                 "sample": res.get("sample"),
                 "oplog_digest": res["oplog_digest"],
+                "process_history": res.get("process_history_needed"),
                 "repo_head": head,
                 "repo_dirty": dirty,
                 "note": note,
@@ -346,11 +353,33 @@ def run_batch(check, tier, seed, nproc=None, quiet=False):
     final_violations = []
     for key, path, best in replay_paths:
         env = dict(os.environ, PYTHONHASHSEED="0", MPLBACKEND="agg")
-        p = subprocess.run([PY, "-m", "atomsim.check", check.ID, "--replay", path, "--quiet"], cwd=VERIF, env=env, capture_output=True, text=True, timeout=900)
+        p = subprocess.run([PY, "-m", "atomsim.check", check.ID, "--replay", path, "--quiet"], cwd=VERIF, env=env, capture_output=True, text=True, timeout=1800)
         if p.returncode == 1:
             final_violations.append((key, path))
+            continue
+        # Not reproducible from the tape alone.  Before calling it harness nondeterminism, test whether the violation needs the
+        # HISTORY of the process that found it (earlier runs executed by the same worker): state that survives between runs
+        # inside one process is exactly what C08-type properties forbid, and it replays exactly once the history is replayed too.
+        first = viol_runs.get(key, {})
+        hist = first.get("process_history") or []
+        reproduced = False
+        for k_ in [n_ for n_ in (4, 16, len(hist)) if n_ <= len(hist)] if hist else []:
+            with open(path) as f:
+                rep = json.load(f)
+            # the un-minimised tape of the run that found it (minimisation ran in workers that had a history of their own)
+            rep["tape"] = first["tape"]
+            rep["process_history"] = hist[-k_:]
+            rep["note"] = (rep.get("note") or "") + f" | needs the process history: the {k_} runs executed before it by the same worker process"
+            with open(path, "w") as f:
+                json.dump(rep, f, indent=1, default=str)
+            p2 = subprocess.run([PY, "-m", "atomsim.check", check.ID, "--replay", path, "--quiet"], cwd=VERIF, env=env, capture_output=True, text=True, timeout=3000)
+            if p2.returncode == 1:
+                reproduced = True
+                break
+        if reproduced:
+            final_violations.append((key, path))
         else:
-            errors.append(f"HARNESS-NONDETERMINISM: replay of {path} did not reproduce {key} in a fresh interpreter (rc={p.returncode}): {p.stdout[-500:]} {p.stderr[-500:]}")
+            errors.append(f"HARNESS-NONDETERMINISM: replay of {path} did not reproduce {key} in a fresh interpreter (rc={p.returncode}), with or without the finder's process history: {p.stdout[-500:]} {p.stderr[-500:]}")
 
     wall = time.time() - t_start
     # ---- determinism of the simulator itself (reduced in quick, full in thorough) -----------
@@ -515,6 +544,8 @@ def run_replay(check, path, quiet=False):
     if hasattr(check, "prepare"):
         check.prepare(rep.get("tier", "quick"))
     tape = [e[2] for e in rep["tape"]]
+    for h_idx in rep.get("process_history") or []:
+        execute(check, h_idx, rep["seed"], rep.get("tier", "quick"), None)  # earlier runs of the finder's process, in order
     r = execute(check, rep["run_index"], rep["seed"], rep.get("tier", "quick"), tape)
     target = (rep["violation"]["cls"], rep["violation"]["site"])
     if r["error"]:
